@@ -35,6 +35,8 @@ var leafTypes = []string{
 	"Local", "MyErrI", "MyAny", "MyRS",
 	"ErrV", "ErrP", "ErrStr", "StrV", "StrP", "RdV", "RdP", "LocV", "LocP", "AllV", "WrongSig",
 	"EmbErr", "EmbErrP", "EmbErrPV", "Z0", "ZS", "ZArr", "Box[int]", "Box[string]", "PairG[string, int]",
+	"PingV", "PingP", "PingWrong", "PingAny", "PingRS", "FlateRs", "FlateRsW", "FlRd", "ImgV", "ImgRO", "ImgWrong", "CtxV", "WtV",
+	"TxtM", "FlagV", "context.Context", "image.Image", "io.WriterTo", "color.Color",
 }
 
 var keyTypes = []string{"string", "int", "MyInt", "[2]int", "*S1", "error", "bool"}
@@ -46,6 +48,8 @@ var namedVars = []string{
 	"Local", "MyErrI", "MyAny", "MyRS",
 	"ErrV", "ErrP", "ErrStr", "StrV", "StrP", "RdV", "RdP", "LocV", "LocP", "AllV", "WrongSig",
 	"EmbErr", "EmbErrP", "EmbErrPV", "Z0", "ZS", "ZArr", "MyArr4", "MyBool",
+	"PingV", "PingP", "PingWrong", "PingAny", "PingRS", "FlateRs", "FlateRsW", "FlRd", "ImgV", "ImgRO", "ImgWrong", "CtxV", "WtV",
+	"TxtM", "FlagV",
 }
 
 // witnesses returns expressions chosen so that every pair of rules.go has sites it accepts; file idx takes every
@@ -66,6 +70,15 @@ func (g *gen) witnesses() []string {
 		"*new(struct{ *S1; x int })", "*new(struct{ sync.Mutex; x, y, z int })", "*new(struct{ x int; sync.Mutex })",
 		"*new(*WithMu)", "v_MyArr4", "v_MyBool", "*new([]StrV)", "*new([3]ErrV)", "*new([]error)", "*new(*ErrV)", "*new(*error)",
 		"*new(***S1)", "*new(****int)", "*new(*[4]int)", "*new([2]MyArr)", "*new(struct{ a [0]int; b string })")
+	// cross-universe witnesses: implementers (and near misses) of interfaces whose method signatures mention named
+	// types, the interfaces living in packages this file imports (context, io, image) and does not import
+	// (database/sql/driver, compress/flate, image/draw, encoding, flag), and values of the types of log.Logger's fields
+	for _, n := range crossTypes {
+		out = append(out, "*new("+n+")", "&"+n+"{}")
+	}
+	out = append(out, "*new(interface{})", "interface{}(nil)", "*new([]int)", "*new(any)", "io.Writer(nil)", "*new(sync.Mutex)", "context.Context(nil)", "image.Image(nil)", "io.WriterTo(nil)",
+		"*new(context.Context)", "*new(io.Writer)", "*new(*sync.Mutex)", "*new([]io.Writer)", "*new(io.Reader)",
+		"*new(time.Time)", "*new(color.Color)", "*new(image.Rectangle)", "*new(func(context.Context) error)")
 	return out
 }
 
@@ -76,7 +89,13 @@ var literalable = map[string]bool{
 	"MyArr": true, "MyArr0": true, "MyMap": true, "ErrV": true, "ErrP": true, "StrV": true, "StrP": true, "RdV": true,
 	"RdP": true, "LocV": true, "LocP": true, "AllV": true, "WrongSig": true, "EmbErr": true, "EmbErrP": true,
 	"EmbErrPV": true, "Z0": true, "ZS": true, "ZArr": true,
+	"PingV": true, "PingP": true, "PingWrong": true, "PingAny": true, "PingRS": true, "FlateRs": true, "FlateRsW": true, "FlRd": true,
+	"ImgV": true, "ImgRO": true, "ImgWrong": true, "CtxV": true, "WtV": true, "TxtM": true, "FlagV": true,
 }
+
+// crossTypes: catalogue types probing Implements across type-check universes (see witnesses).
+var crossTypes = []string{"PingV", "PingP", "PingWrong", "PingAny", "PingRS", "FlateRs", "FlateRsW", "FlRd", "ImgV", "ImgRO", "ImgWrong",
+	"CtxV", "WtV", "TxtM", "FlagV"}
 
 var fixedExprs = []string{
 	"1", `"s"`, "1.5", "'a'", "true", "1 << 3", `len("abc")`, "2i", `"a" + "b"`,
@@ -163,8 +182,8 @@ func genTarget(seed int64, idx int) string {
 	g := &gen{rng: rand.New(rand.NewSource(seed*1000003 + int64(idx)*7919 + 17)), seen: map[string]bool{}}
 	w := func(format string, args ...interface{}) { fmt.Fprintf(&g.sb, format, args...) }
 
-	w("package target\n\nimport (\n\t\"bytes\"\n\t\"errors\"\n\t\"fmt\"\n\t\"io\"\n\t\"os\"\n\t\"strings\"\n\t\"sync\"\n)\n\n")
-	w("var (\n\t_ = errors.New\n\t_ = strings.NewReader\n\t_ bytes.Buffer\n\t_ sync.Mutex\n\t_ io.Reader\n\t_ fmt.Stringer\n\t_ = os.Stdout\n)\n\n")
+	w("package target\n\nimport (\n\t\"bytes\"\n\t\"context\"\n\t\"errors\"\n\t\"fmt\"\n\t\"image\"\n\t\"image/color\"\n\t\"io\"\n\t\"os\"\n\t\"strings\"\n\t\"sync\"\n\t\"time\"\n)\n\n")
+	w("var (\n\t_ = errors.New\n\t_ = strings.NewReader\n\t_ bytes.Buffer\n\t_ sync.Mutex\n\t_ io.Reader\n\t_ fmt.Stringer\n\t_ = os.Stdout\n\t_ context.Context\n\t_ image.Image\n\t_ color.Color\n\t_ time.Time\n)\n\n")
 	w("func probe(args ...interface{}) {}\n\nfunc probe0(args ...interface{}) {}\n\nfunc probe2(a, b interface{}) {}\n\n")
 
 	// ---- catalogue of named types (names are fixed, contents vary)
@@ -210,6 +229,24 @@ func genTarget(seed int64, idx int) string {
 	w("type Z0 [0]int\ntype ZS struct{ a [0]int; b struct{} }\ntype ZArr [%d]struct{}\n", 1+g.rng.Intn(9))
 	w("type Box[T any] struct{ v T }\nfunc (b Box[T]) String() string { return \"\" }\n")
 	w("type PairG[K comparable, V any] struct{ k K; v V }\n\n")
+
+	// implementers of interfaces from other type-check universes (fields vary, method sets are fixed)
+	w("type PingV struct{ %s }\nfunc (PingV) Ping(ctx context.Context) error { return nil }\n", g.fields("p", g.rng.Intn(2)))
+	w("type PingP struct{ %s }\nfunc (*PingP) Ping(ctx context.Context) error { return nil }\n", g.fields("p", g.rng.Intn(2)))
+	w("type PingWrong struct{}\nfunc (PingWrong) Ping(cancel context.CancelFunc) error { return nil }\n")
+	w("type PingAny struct{}\nfunc (PingAny) Ping(ctx interface{}) error { return nil }\n")
+	w("type PingRS struct{}\nfunc (PingRS) Ping(ctx context.Context) error { return nil }\nfunc (PingRS) ResetSession(ctx context.Context) error { return nil }\n")
+	w("type FlateRs struct{ %s }\nfunc (FlateRs) Reset(r io.Reader, dict []byte) error { return nil }\n", g.fields("q", g.rng.Intn(2)))
+	w("type FlateRsW struct{}\nfunc (FlateRsW) Reset(w io.Writer, dict []byte) error { return nil }\n")
+	w("type FlRd struct{}\nfunc (FlRd) Read(p []byte) (int, error) { return 0, nil }\nfunc (FlRd) ReadByte() (byte, error) { return 0, nil }\n")
+	w("type ImgRO struct{}\nfunc (ImgRO) ColorModel() color.Model { return nil }\nfunc (ImgRO) Bounds() image.Rectangle { return image.Rectangle{} }\nfunc (ImgRO) At(x, y int) color.Color { return nil }\n")
+	w("type ImgV struct{ ImgRO }\nfunc (ImgV) Set(x, y int, c color.Color) {}\n")
+	w("type ImgWrong struct{ ImgRO }\nfunc (ImgWrong) Set(x, y int, c color.Model) {}\n")
+	w("type CtxV struct{}\nfunc (CtxV) Deadline() (time.Time, bool) { return time.Time{}, false }\nfunc (CtxV) Done() <-chan struct{} { return nil }\n")
+	w("func (CtxV) Err() error { return nil }\nfunc (CtxV) Value(key any) any { return nil }\n")
+	w("type WtV struct{}\nfunc (WtV) WriteTo(w io.Writer) (int64, error) { return 0, nil }\n")
+	w("type TxtM struct{}\nfunc (TxtM) MarshalText() ([]byte, error) { return nil, nil }\n")
+	w("type FlagV struct{}\nfunc (FlagV) String() string { return \"\" }\nfunc (FlagV) Set(string) error { return nil }\n\n")
 
 	w("func mkS1() S1 { return S1{} }\nfunc mkPtrS2() *S2 { return nil }\nfunc mkErr() error { return nil }\n")
 	w("func mkReader() io.Reader { return nil }\nfunc mkArr() [%d]string { return [%d]string{} }\n", 2+idx%3, 2+idx%3)
